@@ -126,3 +126,36 @@ prop(
     [st("redact", "urls", "TestC16", timeout_q=600, timeout_t=3000)],
     floors=[dict(stage="redact", key="base_urls", min=30_000)],
 )
+
+prop(
+    "C12",
+    "byte-level reference monitor: IPToAddr / IPToAddrNoMapped / NetAddrToAddrPort results are compared with AddrFrom4/AddrFrom16 of the input bytes (unmapped where stated, zone and uint16 port kept) and wrong-length inputs must be rejected; "
+    "for every (IP, mask) the three IPNet conversions must reject a mask that is nil/empty/not a contiguous run of ones, and where they succeed with len(mask)==len(converted address) the prefix's Contains must equal the *net.IPNet's on "
+    "network/last/+-1/every single-bit flip of the base/24 random probes; slices.SortFunc and SortStableFunc with PreferIPv4/6 are compared with the stable partition [preferred family asc][other family asc][invalid]. "
+    "Non-trivial: a valid-address conversion, a non-canonical mask, a successful subnet conversion, a slice of >=2 addresses; pool cases are distinct by construction",
+    [st("conv", "c12", "TestConv", timeout_q=600, timeout_t=2400), st("sort", "c12", "TestSort", timeout_q=600, timeout_t=2400)],
+    floors=[dict(stage="conv", key="subnet_conversions_ok", min=2_000), dict(stage="conv", key="addr_conversions_ok", min=50), dict(stage="sort", key="sorted_slices", min=100_000)],
+    assumptions=["for fam=IPv6 the membership clause is judged on genuine IPv6 bases only (net.IPNet has no coherent membership for a 4in6 base with a 16-byte mask)", "netip.Addr.Compare defines 'ascending'"],
+)
+
+LINEGEN = ("hosts lines: leads x addresses (valid/invalid/zoned/4in6) x separators (space, tab, runs, \\v, \\r, NBSP, \\f) x names (valid, bad label, IDN, invalid UTF-8, over-long, CR/VT inside) x trails/comments exhaustively for 0..2 names, "
+           "sampled for 3..5 names, '#', CR, NUL and double blanks inserted at every byte position of base lines, all strings <=6(8) over '1 . : a # space tab CR', mutants of repository rows, seeded random")
+prop(
+    "C07",
+    "reference field-parser monitor: each line is parsed by Record.UnmarshalText and by a reference (cut at '#', FieldsFunc on space/tab, netip.ParseAddr, golibs' ValidateDomainName per name) and compared in acceptance, address, names, "
+    "error class (ErrEmptyLine / ErrNoHosts / the address error text / *AddrError naming the first bad name with only the names before it retained); every accepted record is marshalled and re-parsed and must be equal. " + LINEGEN +
+    ". Non-trivial: the line has a valid address and at least one name field (classes ok / name error)",
+    [st("record", "hosts", "TestC07", timeout_q=600, timeout_t=2400)],
+    floors=[dict(stage="record", key="evaluations", min=2_000_000), dict(stage="record", key="lines_ok", min=100_000), dict(stage="record", key="lines_name error", min=50_000)],
+    assumptions=["ValidateDomainName is the name grammar (decided by C03), netip.ParseAddr the address grammar"],
+)
+prop(
+    "C08",
+    "event-log monitor: a recording destination set logs every Add / HandleInvalid call (bytes copied at call time) and the log is compared with the reference (reference line splitter + C07 reference parser) for the same bytes read through "
+    "6 scripted fragmentations (whole, 1-byte, random chunks, interleaved (0,nil) reads, data+EOF, error after k bytes) x buffers nil/1/16/4096 x named/unnamed reader x HandleSet/plain Set (joined *LineError list checked in order); "
+    "DefaultStorage is shadowed by a two-index model and after EVERY Add all of ByAddr, ByName (3 letter cases incl. non-ASCII), RangeNames, RangeAddrs (incl. early stop), cross-index agreement and Equal are compared. "
+    "Non-trivial: an input with >=2 lines / an Add sequence (distinct by construction)",
+    [st("parse", "hosts", "TestParse", timeout_q=600, timeout_t=2400), st("storage", "hosts", "TestStorage", timeout_q=600, timeout_t=2400)],
+    floors=[dict(stage="parse", key="parse_runs", min=100_000), dict(stage="parse", key="runs_with_injected_read_error", min=5_000), dict(stage="storage", key="add_sequences", min=50_000)],
+    assumptions=["lines shorter than 64 KiB (bufio.Scanner's documented limit)", "case-insensitivity is exercised on letters where ToLower, EqualFold and ASCII folding agree (ASCII, ü/Ü)"],
+)
